@@ -144,7 +144,7 @@ def sym_job(prog: str, xcheck: int = 0) -> JobOut:
     from pv.props.c05 import _target
     from pv.sem import bounds as B
     from pv.sem.knlsem import KernelModel
-    P = {p.name: p for p in C.SYM_CORPUS}[prog]
+    P = {p.name: p for p in C.ALL_SYM}[prog]
     try:
         outs, ins, S = C.build_sym_pytato(P)
     except Exception as e:  # noqa: BLE001
@@ -179,15 +179,15 @@ def jobs(tier: str, seed: int):
         J.append(Job(MOD, "static_job", {"prog": P.name, "variant": "plain", "seed": seed, "xcheck": xc}, jid=f"{P.name}/plain", hard_timeout=900))
         for v in (["all_stored", "all_subst", "alternate", "random0"] if th else ["alternate"]):
             J.append(Job(MOD, "static_job", {"prog": P.name, "variant": v, "seed": seed, "xcheck": xc}, jid=f"{P.name}/{v}", hard_timeout=900))
-    for P in C.SYM_CORPUS:
+    for P in C.sym_corpus(tier):
         J.append(Job(MOD, "sym_job", {"prog": P.name, "xcheck": 2 if th else 0}, jid=f"{P.name}/sym", hard_timeout=900))
     meta = {
-        "programs": len(progs) + len(C.SYM_CORPUS),
+        "programs": len(progs) + len(C.sym_corpus(tier)),
         "explanation": "One z3 query per array access of every generated kernel: iteration domain (from the kernel's ISL "
                        "sets), non-negative size parameters and path guards imply 0 <= subscript < extent; unsat of the "
                        "negation holds for all loop indices and all sizes.  Writer domains are also proved equal to the "
                        "declared shapes.",
-        "bounds": {"kernels": f"{len(J)} (corpus programs, tagged variants, {len(C.SYM_CORPUS)} size-parameter programs)",
+        "bounds": {"kernels": f"{len(J)} (corpus programs, tagged variants, {len(C.sym_corpus(tier))} size-parameter programs)",
                    "loop indices / size parameters": "all integers in the domain / all values >= 0"},
         "outside": ["subscripts that read other arrays are checked with the read value unconstrained and otherwise "
                     "counted as data-dependent (documented caller's responsibility)",
